@@ -670,7 +670,7 @@ class Exec:
     def global_lv(self, st, q, rd):
         q = models.GLOBAL_ALIAS.get(q, q)
         ct = parse_type(rd.get('type'))
-        if q in ('abort', 'vfps::Display::abort'):
+        if q in ('abort', 'vfps::Display::abort') and not getattr(self, 'plain_abort', False):
             # flag set asynchronously by the SIGINT handler: every read may see it newly set, and it is never cleared
             prev = st.scal.get('ghost.abort_seen')
             b = State.fresh('abort_read', z3.BoolSort())
@@ -1042,7 +1042,7 @@ class Exec:
             if op == '*':
                 return RealV(self.fmul(x, y), rct)
             if op == '/':
-                return RealV(x / y, rct)
+                return RealV(self.fdiv(x, y), rct)
             raise ExtractionError(f'float op {op}')
         if op in ('+', '-', '*', '/', '%'):
             return IntV(self.arith_int(st, op, va.t, vb.t, rct), rct)
@@ -1066,6 +1066,19 @@ class Exec:
         return x * y
 
     cur_state = None
+    uf_div = False
+
+    def fdiv(self, x, y):
+        """real quotient; with uf_div the quotient by a non-constant is an uninterpreted function with the sign rules
+        of division (a sound abstraction: keeps refutations inside linear arithmetic + UF)"""
+        if self.uf_div and not z3.is_rational_value(z3.simplify(y)):
+            r = models.FDIV(x, y)
+            if self.cur_state is not None:
+                self.cur_state.assume(z3.And(z3.Implies(z3.And(x >= 0, y > 0), r >= 0), z3.Implies(z3.And(x <= 0, y < 0), r >= 0),
+                                             z3.Implies(z3.And(x >= 0, y < 0), r <= 0), z3.Implies(z3.And(x <= 0, y > 0), r <= 0),
+                                             z3.Implies(z3.And(x == 0, y != 0), r == 0)))
+            return r
+        return x / y
 
     def ptrcmp(self, op, a, b):
         if op not in ('==', '!='):
